@@ -13,6 +13,10 @@
 //!                     that needs two atomic operations to overlap in time)
 //!          sk-stress  skiplist, free-running threads, hooks off; per-operation begin/end stamps
 //!                     from one global counter; the direct oracle is evaluated here
+//!          sk-hammer  skiplist, hooks off: many short rounds in which all threads insert into one
+//!                     gap at the same time (see `sk_hammer`); body = THREADS ROUNDS KEYS_PER_THREAD
+//!          sk-own     skiplist, real threads, registry on: the list is dropped on one thread while
+//!                     iterators and iterator clones are alive on others; body = THREADS KEYS
 //!          sk-life    skiplist, one thread, node-lifetime registry on: a list and several
 //!                     iterators are created and dropped in the given order
 //!          ls-sched / ls-free / ls-stress    the same for listfree::List
@@ -169,10 +173,16 @@ fn register_node(addr: usize) {
 
 fn check_live(addr: usize, what: &str) {
     if MODE.load(Ordering::Relaxed) == 3 {
+        // the registry may be used by several threads (sk-own): serialise it
+        lock();
         let l = log();
-        if !l.live.contains(&addr) {
+        let dead = !l.live.contains(&addr);
+        if dead {
             let n = l.nodes.get(&addr).copied();
             l.uaf.push(format!("{}:{:?}", what, n));
+        }
+        unlock();
+        if dead {
             // stop before the access happens
             panic!("use after free");
         }
@@ -192,7 +202,13 @@ fn sk_hook(phase: usize, kind: usize, node: usize, level: usize, cell: usize) {
             v::ALLOC => {
                 LAST_HEIGHT.with(|h| h.set(level));
                 if tid == NONE || mode == 3 {
+                    if mode == 3 {
+                        lock();
+                    }
                     register_node(node);
+                    if mode == 3 {
+                        unlock();
+                    }
                 } else {
                     if mode == 1 {
                         gate(tid);
@@ -208,7 +224,9 @@ fn sk_hook(phase: usize, kind: usize, node: usize, level: usize, cell: usize) {
             }
             v::FREE => {
                 if mode == 3 {
+                    lock();
                     log().live.remove(&node);
+                    unlock();
                 }
             }
             v::DEREF => check_live(node, "deref"),
@@ -257,7 +275,13 @@ fn ls_hook(phase: usize, kind: usize, node: usize, cell: usize) {
         match kind {
             v::ALLOC => {
                 if tid == NONE || mode == 3 {
+                    if mode == 3 {
+                        lock();
+                    }
                     register_node(node);
+                    if mode == 3 {
+                        unlock();
+                    }
                 } else {
                     if mode == 1 {
                         gate(tid);
@@ -273,7 +297,9 @@ fn ls_hook(phase: usize, kind: usize, node: usize, cell: usize) {
             }
             v::FREE => {
                 if mode == 3 {
+                    lock();
                     log().live.remove(&node);
+                    unlock();
                 }
             }
             v::DEREF => check_live(node, "deref"),
@@ -964,6 +990,166 @@ fn sk_stress<const M: usize>(progs: &[Vec<Op>]) -> String {
     }
 }
 
+// --------------------------------------------------------------------------- hammer
+/// `sk-hammer MAXH r<seed> | T R K`:  R short rounds on fresh lists with hooks OFF (real threads,
+/// real memory ordering).  In every round T persistent threads, released together by a spin
+/// barrier, insert K keys each INTO THE SAME GAP between two pre-inserted boundary keys: thread i
+/// takes lo+1+i, lo+1+i+T, ... (ascending in even rounds, descending in odd rounds), so that at
+/// every moment all threads compete for the same predecessor at level 0 (and, with the heights
+/// random_height picks or a forced tall tower, above).  After the round: every inserted key must
+/// be found by contains and seek, and a full iteration must be exactly boundary + inserted keys.
+/// A reader thread (if T >= 3, the last one) iterates instead of inserting and must see sorted keys
+/// that are all legitimate.
+fn sk_hammer<const M: usize>(seed: u64, t: usize, rounds: usize, k: usize) -> String {
+    MODE.store(0, Ordering::SeqCst);
+    let t = t.clamp(2, 12);
+    let nread = if t >= 3 { 1 } else { 0 };
+    let nw = t - nread;
+    let lists: Arc<Vec<SkipList<u64, u64, M>>> = Arc::new((0..rounds).map(|_| SkipList::default()).collect());
+    let mut rng = Rng(seed);
+    let bases: Arc<Vec<(u64, usize)>> = Arc::new(
+        (0..rounds)
+            .map(|r| {
+                let base = match rng.below(4) {
+                    0 => 0,
+                    1 => u64::MAX - (nw * k + 4) as u64,
+                    _ => rng.below(1 << 40) * 1000,
+                };
+                // height policy of the round: 0 = random_height, otherwise all towers this tall
+                let h = match r % 4 {
+                    0 | 1 => 0,
+                    2 => 1,
+                    _ => M.min(1 + rng.below(M as u64) as usize),
+                };
+                (base, h)
+            })
+            .collect(),
+    );
+    for (r, l) in lists.iter().enumerate() {
+        let (base, _) = bases[r];
+        HEIGHT.with(|x| x.set(0));
+        l.insert(base, val_of(base));
+        l.insert(base + (nw * k) as u64 + 2, val_of(base + (nw * k) as u64 + 2));
+    }
+    let arrive = Arc::new(AtomicUsize::new(0));
+    let bad: Arc<std::sync::Mutex<Option<String>>> = Arc::new(std::sync::Mutex::new(None));
+    let mut handles = vec![];
+    for tid in 0..t {
+        let lists = Arc::clone(&lists);
+        let bases = Arc::clone(&bases);
+        let arrive = Arc::clone(&arrive);
+        let bad = Arc::clone(&bad);
+        handles.push(std::thread::spawn(move || {
+            for r in 0..rounds {
+                // spin barrier: everybody starts the round together
+                arrive.fetch_add(1, Ordering::SeqCst);
+                let mut spins = 0u32;
+                while arrive.load(Ordering::Acquire) < (r + 1) * t {
+                    relax(&mut spins);
+                }
+                let (base, h) = bases[r];
+                let l = &lists[r];
+                if tid < nw {
+                    HEIGHT.with(|x| x.set(h));
+                    for j in 0..k {
+                        let jj = if r % 2 == 0 { j } else { k - 1 - j };
+                        let key = base + 1 + (jj * nw + tid) as u64;
+                        l.insert(key, val_of(key));
+                    }
+                } else {
+                    let hi = base + (nw * k) as u64 + 2;
+                    for _ in 0..3 {
+                        let mut it = l.iter();
+                        it.seek_to_first();
+                        let mut prev: Option<u64> = None;
+                        while it.is_valid() {
+                            let key = *it.key();
+                            if prev.map(|p| p >= key).unwrap_or(false) || key < base || key > hi {
+                                let mut b = bad.lock().unwrap();
+                                if b.is_none() {
+                                    *b = Some(format!("round {}: concurrent iteration saw {:?} then {}", r, prev, key));
+                                }
+                            }
+                            prev = Some(key);
+                            it.next();
+                        }
+                    }
+                }
+            }
+        }));
+    }
+    let t0 = Instant::now();
+    while !handles.iter().all(|h| h.is_finished()) {
+        std::thread::sleep(Duration::from_millis(1));
+        if t0.elapsed() > Duration::from_secs(40) {
+            return "DIVERGED".to_string();
+        }
+    }
+    for h in handles {
+        if h.join().is_err() {
+            return "BAD a thread panicked".to_string();
+        }
+    }
+    if let Some(b) = bad.lock().unwrap().take() {
+        return format!("BAD {}", b);
+    }
+    let mut checked = 0usize;
+    for (r, l) in lists.iter().enumerate() {
+        let (base, h) = bases[r];
+        let hi = base + (nw * k) as u64 + 2;
+        let mut want: Vec<u64> = vec![base];
+        want.extend((0..(nw * k) as u64).map(|i| base + 1 + i));
+        want.push(hi);
+        let mut got = vec![];
+        let mut it = l.iter();
+        it.seek_to_first();
+        while it.is_valid() {
+            got.push(*it.key());
+            it.next();
+            if got.len() > want.len() + 8 {
+                break;
+            }
+        }
+        if got != want {
+            let missing: Vec<u64> = want.iter().copied().filter(|x| !got.contains(x)).take(6).collect();
+            return format!(
+                "BAD round {} (threads {} keys/thread {} base {} height-policy {}): full iteration has {} keys, want {}; returned inserts missing from it: {:?}",
+                r, nw, k, base, h, got.len(), want.len(), missing
+            );
+        }
+        for &key in want.iter() {
+            if !l.contains(&key) {
+                return format!("BAD round {}: contains({}) = false after its insert returned", r, key);
+            }
+            let mut it = l.iter();
+            it.seek(&key);
+            if !it.is_valid() || *it.key() != key {
+                return format!("BAD round {}: seek({}) did not land on it", r, key);
+            }
+        }
+        // backwards
+        let mut it = l.iter();
+        it.seek_to_last();
+        let mut back = vec![];
+        loop {
+            it.prev();
+            if !it.is_valid() {
+                break;
+            }
+            back.push(*it.key());
+            if back.len() > want.len() + 8 {
+                break;
+            }
+        }
+        back.reverse();
+        if back != want {
+            return format!("BAD round {}: backward iteration has {} keys, want {}", r, back.len(), want.len());
+        }
+        checked += want.len();
+    }
+    format!("OK {} rounds {} keys", rounds, checked)
+}
+
 // --------------------------------------------------------------------------- lifetime
 /// ops (space separated):  i<k> insert | I<j> iterator j = list.iter() | C<j>:<i> iterator j =
 /// iterator i .clone() | D drop the list | d<j> drop iterator j | F<j> L<j> N<j> P<j> S<j>:<k>
@@ -1037,6 +1223,113 @@ fn life_case<const M: usize>(rest: &str) -> String {
     let live = l.live.len();
     MODE.store(0, Ordering::SeqCst);
     format!("{} | live={}", outs.join(" "), live)
+}
+
+/// `sk-own MAXH r<seed> | T N`:  real threads, node-lifetime registry on.  The main thread builds a
+/// list of N keys and hands an `Arc<SkipList>` to T threads, then lets its own go.  Every thread
+/// opens an iterator (and sometimes clones it), lets ITS `Arc<SkipList>` go at a random moment —
+/// so `SkipList::drop` runs on some thread while iterators are alive on the others — and keeps
+/// walking forwards and backwards with the iterators it still holds, which must show exactly the N
+/// keys.  Any dereference of a freed node is reported by the registry.
+fn sk_own<const M: usize>(seed: u64, t: usize, n: usize) -> String {
+    reset_log();
+    MODE.store(3, Ordering::SeqCst);
+    let t = t.clamp(1, 12);
+    let sl: Arc<SkipList<u64, u64, M>> = Arc::new(SkipList::default());
+    HEIGHT.with(|x| x.set(0));
+    for k in 0..n as u64 {
+        sl.insert(k * 3 + 1, val_of(k * 3 + 1));
+    }
+    let want: Vec<u64> = (0..n as u64).map(|k| k * 3 + 1).collect();
+    let mut handles = vec![];
+    for tid in 0..t {
+        let mine = Arc::clone(&sl);
+        let want = want.clone();
+        let mut rng = Rng(seed.wrapping_add(tid as u64 * 7919));
+        handles.push(std::thread::spawn(move || -> Result<(), String> {
+            let r = catch_unwind(AssertUnwindSafe(|| -> Result<(), String> {
+                let mut it = mine.iter();
+                let mut list: Option<Arc<SkipList<u64, u64, M>>> = Some(mine);
+                let drop_at = rng.below(6);
+                let mut clones: Vec<SkipListIterator<u64, u64, M>> = vec![];
+                for round in 0..6u64 {
+                    if round == drop_at {
+                        list = None; // possibly the last Arc<SkipList>: SkipList::drop runs here
+                    }
+                    if rng.below(3) == 0 {
+                        clones.push(it.clone());
+                    }
+                    let mut got = vec![];
+                    if round % 2 == 0 {
+                        it.seek_to_first();
+                        while it.is_valid() {
+                            got.push(*it.key());
+                            it.next();
+                        }
+                    } else {
+                        it.seek_to_last();
+                        loop {
+                            it.prev();
+                            if !it.is_valid() {
+                                break;
+                            }
+                            got.push(*it.key());
+                        }
+                        got.reverse();
+                    }
+                    if got != want {
+                        return Err(format!("thread {} round {}: iterator shows {} keys, want {}", tid, round, got.len(), want.len()));
+                    }
+                    if let Some(c) = clones.last_mut() {
+                        let k = want[rng.below(want.len() as u64) as usize];
+                        c.seek(&k);
+                        if !c.is_valid() || *c.key() != k || *c.value() != val_of(k) {
+                            return Err(format!("thread {}: cloned iterator seek({}) failed", tid, k));
+                        }
+                    }
+                    std::thread::yield_now();
+                }
+                drop(list);
+                drop(it);
+                drop(clones);
+                Ok(())
+            }));
+            match r {
+                Ok(x) => x,
+                Err(_) => Err(format!("thread {} panicked", tid)),
+            }
+        }));
+    }
+    drop(sl);
+    let t0 = Instant::now();
+    while !handles.iter().all(|h| h.is_finished()) {
+        std::thread::sleep(Duration::from_millis(1));
+        if t0.elapsed() > Duration::from_secs(40) {
+            return "DIVERGED".to_string();
+        }
+    }
+    let mut errs = vec![];
+    for h in handles {
+        match h.join() {
+            Ok(Ok(())) => {}
+            Ok(Err(e)) => errs.push(e),
+            Err(_) => errs.push("a thread panicked".to_string()),
+        }
+    }
+    let l = log();
+    let live = l.live.len();
+    let uaf = l.uaf.clone();
+    MODE.store(0, Ordering::SeqCst);
+    if !uaf.is_empty() {
+        return format!("BAD use after free ({}) {}", uaf.join(";"), errs.join("; "));
+    }
+    if !errs.is_empty() {
+        return format!("BAD {}", errs.join("; "));
+    }
+    if live != 0 {
+        return format!("BAD {} nodes were never freed although every handle is gone", live);
+    }
+    format!("OK {} threads {} keys", t, n)
 }
 
 // --------------------------------------------------------------------------- list cases
@@ -1257,6 +1550,62 @@ fn ls_stress(progs: &[Vec<LOp>]) -> String {
     format!("OK {} iterations {} elements", checked, pre.len())
 }
 
+/// `ls-hammer 0 r<seed> | T R K`: R short rounds, hooks off: T threads released together prepend
+/// K elements each to a fresh list; afterwards the list must hold every element exactly once and
+/// the elements of one thread must appear newest first.
+fn ls_hammer(t: usize, rounds: usize, k: usize) -> String {
+    MODE.store(0, Ordering::SeqCst);
+    let t = t.clamp(2, 12);
+    let lists: Arc<Vec<List<u64>>> = Arc::new((0..rounds).map(|_| List::default()).collect());
+    let arrive = Arc::new(AtomicUsize::new(0));
+    let mut handles = vec![];
+    for tid in 0..t {
+        let lists = Arc::clone(&lists);
+        let arrive = Arc::clone(&arrive);
+        handles.push(std::thread::spawn(move || {
+            for r in 0..rounds {
+                arrive.fetch_add(1, Ordering::SeqCst);
+                let mut spins = 0u32;
+                while arrive.load(Ordering::Acquire) < (r + 1) * t {
+                    relax(&mut spins);
+                }
+                for j in 0..k {
+                    lists[r].prepend((tid * k + j) as u64);
+                }
+            }
+        }));
+    }
+    let t0 = Instant::now();
+    while !handles.iter().all(|h| h.is_finished()) {
+        std::thread::sleep(Duration::from_millis(1));
+        if t0.elapsed() > Duration::from_secs(40) {
+            return "DIVERGED".to_string();
+        }
+    }
+    for h in handles {
+        if h.join().is_err() {
+            return "BAD a thread panicked".to_string();
+        }
+    }
+    for (r, l) in lists.iter().enumerate() {
+        let got: Vec<u64> = l.iter().copied().collect();
+        let mut sorted = got.clone();
+        sorted.sort();
+        let want: Vec<u64> = (0..(t * k) as u64).collect();
+        if sorted != want {
+            let missing: Vec<u64> = want.iter().copied().filter(|x| !got.contains(x)).take(6).collect();
+            return format!("BAD round {} (threads {} elements/thread {}): the list holds {} elements, want {}; returned prepends missing: {:?}", r, t, k, got.len(), want.len(), missing);
+        }
+        for tid in 0..t {
+            let mine: Vec<u64> = got.iter().copied().filter(|x| (*x as usize) / k == tid).collect();
+            if mine.windows(2).any(|w| w[0] < w[1]) {
+                return format!("BAD round {}: the elements of thread {} are not newest first: {:?}", r, tid, mine);
+            }
+        }
+    }
+    format!("OK {} rounds {} elements", rounds, rounds * t * k)
+}
+
 // --------------------------------------------------------------------------- main
 macro_rules! with_maxh {
     ($m:expr, $f:ident, $($a:expr),*) => {
@@ -1351,6 +1700,20 @@ fn main() {
                 fatal = l == "DIVERGED";
                 writeln!(out, "{}", l).unwrap();
             }
+            "sk-hammer" => {
+                let a: Vec<usize> = body.split_whitespace().map(|x| x.parse().unwrap()).collect();
+                let seed: u64 = pol[1..].parse().unwrap_or(1);
+                let l = with_maxh!(maxh, sk_hammer, seed, a[0], a[1], a[2]);
+                fatal = l == "DIVERGED";
+                writeln!(out, "{}", l).unwrap();
+            }
+            "sk-own" => {
+                let a: Vec<usize> = body.split_whitespace().map(|x| x.parse().unwrap()).collect();
+                let seed: u64 = pol[1..].parse().unwrap_or(1);
+                let l = with_maxh!(maxh, sk_own, seed, a[0], a[1]);
+                fatal = l == "DIVERGED";
+                writeln!(out, "{}", l).unwrap();
+            }
             "sk-life" => {
                 let l = with_maxh!(maxh, life_case, &body);
                 writeln!(out, "{}", l).unwrap();
@@ -1390,6 +1753,12 @@ fn main() {
                     writeln!(out, "{}", l).unwrap();
                     fatal = sr.diverged;
                 }
+            }
+            "ls-hammer" => {
+                let a: Vec<usize> = body.split_whitespace().map(|x| x.parse().unwrap()).collect();
+                let l = ls_hammer(a[0], a[1], a[2]);
+                fatal = l == "DIVERGED";
+                writeln!(out, "{}", l).unwrap();
             }
             "ls-stress" => {
                 let progs: Vec<Vec<LOp>> = body.split('/').map(parse_lprog).collect();
